@@ -109,6 +109,8 @@ func (w *World) OpenRawClient(n *Net, negotiate bool) (*RawClient, error) {
 	rc := &RawClient{W: w, Stream: cs, Name: fmt.Sprintf("%s%d", n.Label, idx), cancel: cancel}
 	w.Vals["raw:"+rc.Name+":client"] = true
 	rc.reader = w.Go("rawclient-reader:"+rc.Name, false, func() {
+		// a single-threaded peer writes its burst before it reads anything
+		w.WaitUntil("raw:reader-held", func() bool { return w.Vals["rawclient:hold-reader"] == nil })
 		for {
 			m, err := cs.Recv()
 			if err != nil {
